@@ -355,10 +355,50 @@ def _is_method_name(base, name):
 # calls
 
 
+# leading parameters of library callables that may also be passed by
+# keyword: the call is analysed in its positional spelling
+LIB_SIGNATURES = {
+    'datetime.datetime.fromtimestamp': ('timestamp',),
+    'datetime.datetime.utcfromtimestamp': ('timestamp',),
+    'decimal.Decimal': ('value', 'context'),
+    'calendar.timegm': ('tuple',),
+    'struct.pack': ('format',), 'struct.unpack': ('format', 'buffer'),
+    'struct.unpack_from': ('format', 'buffer', 'offset'),
+    'struct.Struct': ('format',), 're.compile': ('pattern', 'flags'),
+    'builtins.int.from_bytes': ('bytes', 'byteorder'),
+    'builtins.sorted': ('iterable',), 'builtins.sum': ('iterable', 'start'),
+    'builtins.bytes': ('source', 'encoding', 'errors'),
+    'builtins.str': ('object', 'encoding', 'errors'),
+    'builtins.int': ('x', 'base'), 'builtins.round': ('number', 'ndigits'),
+    'warnings.warn': ('message', 'category'),
+    'functools.reduce': ('function', 'iterable', 'initial'),
+}
+METHOD_SIGNATURES = {
+    'decode': ('encoding', 'errors'), 'encode': ('encoding', 'errors'),
+    'unpack': ('buffer',), 'unpack_from': ('buffer', 'offset'),
+    'to_bytes': ('length', 'byteorder'),
+    'fullmatch': ('string',), 'match': ('string',), 'search': ('string',),
+    'split': ('sep', 'maxsplit'), 'rsplit': ('sep', 'maxsplit'),
+    'scaleb': ('other',), 'quantize': ('exp',), 'astimezone': ('tz',),
+    'startswith': ('prefix',), 'endswith': ('suffix',),
+}
+
+
+def _positional(names, args, kwargs):
+    if not kwargs or not names:
+        return args, kwargs
+    args2, kw = list(args), dict(kwargs)
+    while len(args2) < len(names) and names[len(args2)] in kw:
+        args2.append(kw.pop(names[len(args2)]))
+    return args2, kw
+
+
 def call_lib(interp, callee, args, kwargs, state, node):
     Ext, StructV, RegexV, LibMethod = _i().Ext, _i().StructV, _i().RegexV, \
         _i().LibMethod
     if isinstance(callee, Ext):
+        args, kwargs = _positional(LIB_SIGNATURES.get(callee.path), args,
+                                   kwargs)
         fn = _EXT_CALLS.get(callee.path)
         if fn is not None:
             return fn(interp, args, kwargs, state, node)
@@ -907,6 +947,13 @@ def _static_or_list(interp, v, state):
 
 def _b_map(interp, args, kwargs, state, node):
     f = args[0]
+    if isinstance(f, _i().Ext) and f.path == 'builtins.len' and \
+            len(args) == 2 and \
+            _static_or_list(interp, args[1], state) is None:
+        # the lengths of the elements of a run-time sequence (consumed by
+        # sum(): the length of their concatenation)
+        return Sym('maplen', args[1] if isinstance(args[1], Ref)
+                   else _t(args[1]))
     seqs = [_static_or_list(interp, a, state) for a in args[1:]]
     lazy = [a for a in args[1:] if isinstance(a, _i().FuncV) and
             a.kind in ('count', 'repeat')]
@@ -1025,6 +1072,12 @@ def _fn_reduce(interp, args, kwargs, state, node):
 
 
 def _b_sum(interp, args, kwargs, state, node):
+    if len(args) == 1 and isinstance(args[0], Sym) and \
+            args[0].op == 'maplen':
+        n0 = len(interp.pending)
+        j = do_join(interp, b'', args[0].args[0], state, node)
+        del interp.pending[n0:]  # len() accepts what join() would refuse
+        return T.length(j)
     seq = _static_or_list(interp, args[0], state)
     if seq is None or any(isinstance(x, Sym) and x.op == 'opt'
                           for x in seq):
@@ -1081,6 +1134,37 @@ def int_to_bytes(interp, v, args, kwargs, state, node):
 
 def _int_to_bytes_call(interp, args, kwargs, state, node):
     return int_to_bytes(interp, args[0], args[1:], kwargs, state, node)
+
+
+def _int_from_bytes(interp, args, kwargs, state, node):
+    """int.from_bytes(view, order[, signed=...]) of a view whose width is a
+    struct integer width and that is known to lie inside its buffer reads
+    the same number as the corresponding struct.unpack (and cannot fail);
+    otherwise the result is an opaque function of the arguments."""
+    a = list(args)
+    b = a[0] if a else kwargs.get('bytes')
+    order = a[1] if len(a) > 1 else kwargs.get('byteorder', 'big')
+    signed = kwargs.get('signed', False)
+    opaque = Sym('extcall', 'builtins.int.from_bytes',
+                 tuple(_t(x) for x in args),
+                 tuple(sorted((k, _t(v)) for k, v in kwargs.items())))
+    if order not in ('big', 'little') or not isinstance(signed, bool):
+        return opaque
+    if isinstance(b, bytes):
+        return int.from_bytes(b, order, signed=signed)
+    if not (isinstance(b, Sym) and b.op == 'slice'):
+        return opaque
+    base, lo, hi = b.args[0], b.args[1], b.args[2]
+    if not (isinstance(lo, int) and isinstance(hi, int) and lo >= 0):
+        return opaque
+    code = {1: 'B', 2: 'H', 4: 'I', 8: 'Q'}.get(hi - lo)
+    t = T.typeof(base)
+    if code is None or t is None or not t <= {'bytes', 'bytearray'}:
+        return opaque
+    if state.kn._decide_cmp('ge', T.length(base), hi) is not True:
+        return opaque  # a shorter view gives a different number
+    f = ('>' if order == 'big' else '<') + (code.lower() if signed else code)
+    return T.index(Sym('unpack', f, _t(b)), 0)
 
 
 def _object_setattr(interp, args, kwargs, state, node):
@@ -1505,6 +1589,7 @@ _EXT_CALLS = {
     'builtins.divmod': _b_divmod,
     'itertools.groupby': _it_groupby, 'sys.intern': _sys_intern,
     'builtins.int.to_bytes': _int_to_bytes_call,
+    'builtins.int.from_bytes': _int_from_bytes,
     'builtins.object.__setattr__': _object_setattr,
     'functools.partial': _fn_partial, 'functools.reduce': _fn_reduce,
     'operator.attrgetter': _op_factory('attrgetter'),
@@ -1544,6 +1629,8 @@ _PURE_CONST_METHODS = {
 
 def call_method(interp, recv, name, args, kwargs, state, node):
     StructV, RegexV = _i().StructV, _i().RegexV
+    if not isinstance(recv, (Ref, ClassInfo)):
+        args, kwargs = _positional(METHOD_SIGNATURES.get(name), args, kwargs)
     if isinstance(recv, StructV):
         if name == 'pack':
             return do_pack(interp, recv.fmt, args, state, node)
@@ -1697,7 +1784,8 @@ def do_join(interp, sep, seq, state, node):
                         T.show(it)[:60])
             parts = [(_t(i)) for i in items]
             if more:
-                parts.append(Sym('more', seq))
+                parts.append(Sym('more', more if isinstance(more, Ref)
+                                 else seq))
             if not parts:
                 return b''
             return T.concat(*parts)
@@ -1729,7 +1817,9 @@ def call_container_method(interp, ref, name, args, kwargs, state, node):
             list_extend(interp, ref, args[0], state, node)
             return None
         if name == 'copy':
-            return interp.alloc(state, ListObj(o.items, o.more))
+            return interp.alloc(state, ListObj(
+                o.items, (o.more if isinstance(o.more, Ref) else ref)
+                if o.more else False))
         if name == 'sort' and o.source is not None and not o.items:
             kw = tuple(sorted((k, _t(v)) for k, v in kwargs.items()))
             src = o.source.args[0] if o.source.op == 'list' else o.source
@@ -2052,8 +2142,13 @@ def binop(interp, op, a, b, state, node):
         if name == 'add' and isinstance(a, Ref) and isinstance(b, Ref):
             oa, ob = interp.obj(state, a), interp.obj(state, b)
             if oa.kind == 'list' and ob.kind == 'list':
+                more = bool(oa.more or ob.more)
+                if ob.more and not oa.more:
+                    # known elements, then the run-time elements of b: the
+                    # same elements, not new unknown ones
+                    more = ob.more if isinstance(ob.more, Ref) else b
                 return interp.alloc(state, _i().ListObj(
-                    oa.items + ob.items, oa.more or ob.more))
+                    oa.items + ob.items, more))
         if name == 'mod' and isinstance(a, str):
             percent_conversions(interp, a, b, state, node)
             return Sym('format', a, _t(b))
